@@ -771,3 +771,49 @@ def extract_standalone(db, name, text):
         d2.merge(json.load(f))
     d2.finish()
     return d2
+
+
+# ---------------------------------------------------------------------------------------------- effects behind helpers
+def lifted_sites(db, f, pred, max_nodes=160):
+    """Sites of f at which an effect described by pred happens - written in f itself, or inside a library helper that f
+    calls and that performs it on every path from its entry to its normal exit (an extracted function is the same
+    code).  pred(fn, node, txt) -> truthy, where txt(expr) renders an expression of fn in f's terms (for a helper: its
+    parameters replaced by the text of the caller's arguments, `this->` dropped).  Returns [(site node in f, node, fn)]."""
+    import re as _re
+    from . import cfg as _cfg
+    out = []
+
+    def own(e):
+        return expr_str(e).replace("this->", "")
+    for n in fn_nodes(f):
+        if pred(f, n, own):
+            out.append((n, n, f))
+    for c in fn_nodes(f):
+        if c["k"] not in ("CallExpr", "CXXMemberCallExpr") or not c.get("callee") or c.get("ext"):
+            continue
+        h = db.fn(c["callee"])
+        if h is None or h is f or not h.get("body") or not h.get("cfg") or not (h.get("file") or "").startswith(("src/", "include/tins")):
+            continue
+        hn = list(fn_nodes(h))
+        if len(hn) > max_nodes:
+            continue
+        args = _cfg.args(c)
+        sub = {}
+        for p_, a_ in zip(h.get("params", ()), args):
+            if p_.get("name"):
+                sub[p_["name"]] = own(strip_all(a_))
+
+        def txt(e, sub=sub):
+            t = expr_str(e).replace("this->", "")
+            for nm, rep_ in sub.items():
+                t = _re.sub(r"(?<![\w.>])%s(?!\w)" % _re.escape(nm), lambda m_: rep_, t)
+            return t
+        gh = None
+        for m in hn:
+            if pred(h, m, txt):
+                if gh is None:
+                    gh = _cfg.FnCFG(h)
+                pm = gh.pos(m)
+                if pm is not None and gh.reaches_exit_avoiding((gh.entry, -1), [pm], normal_only=True) is None:
+                    out.append((c, m, h))
+    return out
